@@ -321,4 +321,407 @@ Proof.
     + rewrite (H k (or_introl eq_refl) Ef). cbn [negb]. lia.
     + destruct (g k); cbn [negb length]; lia.
 Qed.
+
+(* ---- statuses survive as long as the items and the Timeout events survive ---- *)
+Definition Rx (X : Z) (it it' : item) : Prop :=
+  (forall i, isW i it = true -> isW i it' = true) /\ (isX X it = true -> isX X it' = true).
+
+Lemma Rx_refl X it : Rx X it it.
+Proof. split; auto. Qed.
+
+Definition Pres (X : Z) (pp pp' : list (item * Q)) (exc : item * Q -> Prop) : Prop :=
+  forall x, In x pp -> exc x \/ exists x', In x' pp' /\ Rx X (fst x) (fst x') /\ (snd x' <= snd x)%Q.
+
+Lemma hasW_mono X pp pp' exc i D :
+  Pres X pp pp' exc -> (forall x, exc x -> isW i (fst x) = false) -> hasW pp i D = true -> hasW pp' i D = true.
+Proof.
+  intros HP He H. unfold hasW in *. apply existsb_exists in H as (x & Hx & Hc). apply andb_true_iff in Hc as [C1 C2].
+  destruct (HP x Hx) as [Hex|(x' & Hx' & [R1 _] & Hle)]; [rewrite (He x Hex) in C1; discriminate|].
+  apply existsb_exists. exists x'. split; [exact Hx'|]. apply andb_true_iff. split; [apply R1; exact C1|].
+  apply Qltb_true in C2. apply Qltb_true. lra.
+Qed.
+
+Lemma hasX_mono X pp pp' exc D :
+  Pres X pp pp' exc -> (forall x, exc x -> isX X (fst x) = false) -> hasX pp X D = true -> hasX pp' X D = true.
+Proof.
+  intros HP He H. unfold hasX in *. apply existsb_exists in H as (x & Hx & Hc). apply andb_true_iff in Hc as [C1 C2].
+  destruct (HP x Hx) as [Hex|(x' & Hx' & [_ R2] & Hle)]; [rewrite (He x Hex) in C1; discriminate|].
+  apply existsb_exists. exists x'. split; [exact Hx'|]. apply andb_true_iff. split; [apply R2; exact C1|].
+  apply Qltb_true in C2. apply Qltb_true. lra.
+Qed.
+
+Definition fires_keep (i : Z) (st st' : lstate) : Prop :=
+  forall t, In (i, t) (fires (l_agenda st)) -> In (i, t) (fires (l_agenda st')).
+
+Lemma statP_mono st st' exc i :
+  Pres (last_ack (l_snd st)) (pipe lc st) (pipe lc st') exc -> (forall x, exc x -> isW i (fst x) = false) ->
+  fires_keep i st st' -> statP st i = true -> statP st' i = true.
+Proof.
+  intros HP He Hf H. unfold statP in *. apply existsb_exists in H as ([j t] & Hx & Hc). cbn [fst snd] in Hc.
+  apply andb_true_iff in Hc as [C1 C2]. apply Z.eqb_eq in C1. subst j.
+  apply existsb_exists. exists (i, t). split; [apply Hf; exact Hx|]. cbn [fst snd]. rewrite Z.eqb_refl. cbn [andb].
+  eapply hasW_mono; eauto.
+Qed.
+
+Lemma statL_mono st st' exc i :
+  last_ack (l_snd st') = last_ack (l_snd st) ->
+  Pres (last_ack (l_snd st)) (pipe lc st) (pipe lc st') exc -> (forall x, exc x -> isX (last_ack (l_snd st)) (fst x) = false) ->
+  fires_keep i st st' -> statL st i = true -> statL st' i = true.
+Proof.
+  intros HX HP He Hf H. unfold statL in *. rewrite HX. apply existsb_exists in H as ([j t] & Hx & Hc). cbn [fst snd] in Hc.
+  apply andb_true_iff in Hc as [C1 C2]. apply Z.eqb_eq in C1. subst j.
+  apply existsb_exists. exists (i, t). split; [apply Hf; exact Hx|]. cbn [fst snd]. rewrite Z.eqb_refl. cbn [andb].
+  eapply hasX_mono; eauto.
+Qed.
+
+Lemma zmode_mono st st' exc :
+  last_ack (l_snd st') = last_ack (l_snd st) ->
+  Pres (last_ack (l_snd st)) (pipe lc st) (pipe lc st') exc -> (forall x, exc x -> isX (last_ack (l_snd st)) (fst x) = false) ->
+  zmode st = true -> zmode st' = true.
+Proof.
+  intros HX HP He H. unfold zmode in *. rewrite HX. apply existsb_exists in H as (x & Hx & C1).
+  destruct (HP x Hx) as [Hex|(x' & Hx' & [_ R2] & _)]; [rewrite (He x Hex) in C1; discriminate|].
+  apply existsb_exists. exists x'. split; [exact Hx'|apply R2; exact C1].
+Qed.
 End Status.
+
+(* ================================================================================================ *)
+(* what an agenda step does to the two halves of the pipeline *)
+Section Parts.
+Variable lc : lcfg.
+Local Notation d := (lc_delay lc).
+Hypothesis Hd : (0 <= d)%Q.
+
+Definition DPl (now : Q) (ag : list aentry) (items : list Z) : list (item * Q) :=
+  heldD_items lc ag ++ qD_items lc (base lc now ag) items.
+Definition APl (ag : list aentry) (w : wireA) : list (item * Q) := heldA_items lc ag ++ qA_items lc w.
+
+Lemma pipe_parts st : pipe lc st = APl (l_agenda st) (l_wa st) ++ DPl (l_now st) (l_agenda st) (wd_items (l_wd st)).
+Proof. unfold pipe, APl, DPl. rewrite <- app_assoc. reflexivity. Qed.
+
+Lemma hD_nothold a l : is_holdD (ae_ev a) = false -> hD lc (a :: l) = hD lc l.
+Proof. intros H. rewrite hD_cons. unfold hD1, hD1te. destruct (ae_ev a); try reflexivity; discriminate. Qed.
+
+Lemma heldA_cons a l : heldA_items lc (a :: l) = hA1 lc a ++ heldA_items lc l.
+Proof. reflexivity. Qed.
+
+Lemma heldA_nothold a l : is_holdA (ae_ev a) = false -> heldA_items lc (a :: l) = heldA_items lc l.
+Proof. intros H. unfold heldA_items. cbn [flat_map]. unfold hA1, hA1te. destruct (ae_ev a); try reflexivity; discriminate. Qed.
+
+Lemma better_refl x : better x x.
+Proof. split; [reflexivity|apply Qle_refl]. Qed.
+
+Lemma qD_prefix b l k x : In x (qD_items lc b l) -> In x (qD_items lc b (l ++ k)).
+Proof. intros H. rewrite qD_app. apply in_or_app. left. exact H. Qed.
+
+(* the data wire is not involved (or only receives new segments) *)
+Lemma DP_same now tau a rest ag' news items kp x :
+  is_holdD (ae_ev a) = false -> AddsT rest ag' news -> (forall n, In n news -> is_holdD (snd n) = false) ->
+  (acount is_holdD (a :: rest) = O -> items <> [] -> (tau <= now)%Q) ->
+  In x (DPl now (a :: rest) items) -> exists x', In x' (DPl tau ag' (items ++ kp)) /\ better x x'.
+Proof.
+  intros Ha HA Hn Ht Hx. unfold DPl in *.
+  assert (Eh : hD lc ag' = hD lc (a :: rest)) by (rewrite (hD_AddsT_nil lc _ _ _ HA Hn), hD_nothold; auto).
+  assert (Ehi : heldD_items lc ag' = heldD_items lc (a :: rest)) by (unfold heldD_items; rewrite Eh; reflexivity).
+  apply in_app_or in Hx as [Hx|Hx].
+  - exists x. split; [apply in_or_app; left; rewrite Ehi; exact Hx|apply better_refl].
+  - assert (Hne : items <> []) by (intros En; rewrite En in Hx; destruct Hx).
+    assert (Hb : (base lc tau ag' <= base lc now (a :: rest))%Q).
+    { unfold base. rewrite Eh. destruct (hD lc (a :: rest)) as [|[i t] l] eqn:E; [|apply Qle_refl].
+      apply Ht; [apply (proj1 (hD_nil_count lc _)); exact E|exact Hne]. }
+    destruct (qD_mono lc _ _ _ x Hb Hx) as (x' & A & B). exists x'. split; [apply in_or_app; right; apply qD_prefix; exact A|exact B].
+Qed.
+
+(* the held packet starts its propagation delay: it leaves no later than assumed *)
+Lemma DP_wait now tau a rest ag' id t' items x :
+  ae_ev a = AWireGetD id -> ae_time a = tau -> AddsT rest ag' [(t', AWireOutD id)] -> (t' <= tau + d)%Q ->
+  acount is_holdD rest = O ->
+  In x (DPl now (a :: rest) items) -> exists x', In x' (DPl tau ag' items) /\ better x x'.
+Proof.
+  intros Ea Et HA Ht Hc Hx. unfold DPl in *.
+  assert (E0 : hD lc (a :: rest) = [(id, (tau + d)%Q)]).
+  { rewrite hD_cons. rewrite (proj2 (hD_nil_count lc _) Hc), app_nil_r. unfold hD1, hD1te. rewrite Ea, Et. reflexivity. }
+  assert (Hin : In (id, t') (hD lc ag')).
+  { apply (fm_AddsT_In (hD1te lc) _ _ _ (id, t') HA). right. exists (t', AWireOutD id). split; [left; reflexivity|left; reflexivity]. }
+  assert (Hc' : (acount is_holdD ag' <= 1)%nat) by (rewrite (AddsT_acount _ _ _ _ HA), Hc; cbn; lia).
+  assert (Eh : hD lc ag' = [(id, t')]).
+  { rewrite <- (hD_len lc) in Hc'. destruct (hD lc ag') as [|y [|z l]]; cbn [length] in Hc'; [destruct Hin| |lia].
+    destruct Hin as [->|[]]. reflexivity. }
+  unfold heldD_items, base in *. rewrite E0 in Hx. rewrite Eh. cbn [map fst snd] in *.
+  apply in_app_or in Hx as [[<-|[]]|Hx].
+  - eexists. split; [left; reflexivity|]. split; cbn [fst snd]; [reflexivity|lra].
+  - destruct (qD_mono lc _ _ _ x Ht Hx) as (x' & A & B). exists x'. split; [right; exact A|exact B].
+Qed.
+
+(* the wire's process takes the next packet out of its store *)
+Lemma DP_get tau b0 rest ag' n0 w x :
+  acount is_holdD rest = O -> AddsT rest ag' (n0 ++ fst (getD_eff tau w)) -> (forall n, In n n0 -> is_holdD (snd n) = false) ->
+  (tau <= b0)%Q ->
+  In x (qD_items lc b0 (wd_items w)) -> exists x', In x' (DPl tau ag' (wd_items (snd (getD_eff tau w)))) /\ better x x'.
+Proof.
+  intros Hc HA Hn Hb Hx. unfold DPl, getD_eff in *. destruct (wd_items w) as [|y l] eqn:Ei; [destruct Hx|]. cbn [fst snd wd_items] in *.
+  assert (Hin : In (y, (nq tau + d)%Q) (hD lc ag')).
+  { apply (fm_AddsT_In (hD1te lc) _ _ _ (y, (nq tau + d)%Q) HA). right. exists (nq tau, AWireGetD y).
+    split; [apply in_or_app; right; left; reflexivity|left; reflexivity]. }
+  assert (Hc' : (acount is_holdD ag' <= 1)%nat).
+  { rewrite (AddsT_acount _ _ _ _ HA), Hc, ncount_app, ncount_cons. cbn [snd is_holdD dataid_of b2n ncount filter length].
+    assert (ncount is_holdD n0 = O); [|lia]. unfold ncount. apply length_zero_iff_nil, filter_none. intros n Hin'. apply Hn, Hin'. }
+  assert (Eh : hD lc ag' = [(y, (nq tau + d)%Q)]).
+  { rewrite <- (hD_len lc) in Hc'. destruct (hD lc ag') as [|z [|z' l']]; cbn [length] in Hc'; [destruct Hin| |lia].
+    destruct Hin as [->|[]]. reflexivity. }
+  unfold heldD_items, base. rewrite Eh. cbn [map fst snd]. cbn [qD_items] in Hx. pose proof (nq_eq tau) as Hq.
+  destruct Hx as [<-|Hx].
+  - eexists. split; [left; reflexivity|]. split; cbn [fst snd]; [reflexivity|lra].
+  - assert (Hb' : (nq tau + d <= b0 + d)%Q) by lra.
+    destruct (qD_mono lc _ _ _ x Hb' Hx) as (x' & A & B). exists x'. split; [right; exact A|exact B].
+Qed.
+
+(* ---- ACK wire ---- *)
+Lemma heldA_nil_count ag : acount is_holdA ag = O -> heldA_items lc ag = [].
+Proof.
+  induction ag as [|a l IH]; [reflexivity|]. rewrite acount_cons. intros H.
+  rewrite heldA_nothold; [apply IH; lia|]. destruct (is_holdA (ae_ev a)); [cbn [b2n] in H; lia|reflexivity].
+Qed.
+
+Lemma AP_same a rest ag' news (w w' : wireA) l x :
+  is_holdA (ae_ev a) = false -> AddsT rest ag' news -> (forall n, In n news -> is_holdA (snd n) = false) ->
+  wa_items w' = wa_items w ++ l ->
+  In x (APl (a :: rest) w) -> In x (APl ag' w').
+Proof.
+  intros Ha HA Hn Hw Hx. unfold APl in *. rewrite (heldA_AddsT_nil lc _ _ _ HA Hn). rewrite heldA_nothold in Hx by exact Ha.
+  apply in_app_or in Hx as [Hx|Hx]; apply in_or_app; [left; exact Hx|right].
+  unfold qA_items in *. rewrite Hw, map_app. apply in_or_app. left. exact Hx.
+Qed.
+
+Lemma AP_wait a rest ag' k p tm ct t' w x :
+  ae_ev a = AWireGetA k p tm ct -> AddsT rest ag' [(t', AWireOutA k p tm ct)] ->
+  In x (APl (a :: rest) w) -> In x (APl ag' w).
+Proof.
+  intros Ea HA Hx. unfold APl in *. apply in_app_or in Hx as [Hx|Hx]; apply in_or_app; [left|right; exact Hx].
+  unfold heldA_items in *. cbn [flat_map] in Hx. apply in_app_or in Hx as [Hx|Hx].
+  - unfold hA1, hA1te in Hx. rewrite Ea in Hx. destruct Hx as [<-|[]].
+    apply (fm_AddsT_In (hA1te lc) _ _ _ _ HA). right. exists (t', AWireOutA k p tm ct). split; [left; reflexivity|left; reflexivity].
+  - apply (fm_AddsT_In (hA1te lc) _ _ _ _ HA). left. exact Hx.
+Qed.
+
+Lemma AP_get tau rest ag' n0 w x :
+  AddsT rest ag' (n0 ++ fst (getA_eff tau w)) ->
+  In x (qA_items lc w) -> In x (APl ag' (snd (getA_eff tau w))).
+Proof.
+  intros HA Hx. unfold APl, getA_eff, qA_items in *. destruct (wa_items w) as [|y l] eqn:Ei; [destruct Hx|]. cbn [fst snd wa_items map] in *.
+  destruct Hx as [<-|Hx]; apply in_or_app; [left|right; exact Hx].
+  apply (fm_AddsT_In (hA1te lc) _ _ _ _ HA). right. eexists. split; [apply in_or_app; right; left; reflexivity|]. left. reflexivity.
+Qed.
+
+(* a waiting data wire with packets in its store is being woken in the current instant *)
+Lemma head_le_now_D st a rest :
+  LInvW lc st -> l_agenda st = a :: rest -> (forall b, In b (l_agenda st) -> (ae_time a <= ae_time b)%Q) ->
+  acount is_holdD (l_agenda st) = O -> wd_items (l_wd st) <> [] -> (ae_time a <= l_now st)%Q.
+Proof.
+  intros [W0 Wp We WDs WAs] E Hall Hc Hne. rewrite Forall_forall in We.
+  destruct (sum_pos_ex _ _ _ (wd_wait _ _ WDs Hc Hne)) as (b & B1 & B2).
+  pose proof (Hall b B1) as T1. pose proof (We b B1) as T2.
+  destruct (ae_ev b) as [| | | |[]|[]| | | |]; cbn [is_putD is_initD entry_w] in *; destruct B2; try discriminate; lra.
+Qed.
+
+Lemma Tr_adds st a rest st' : Tr lc st a rest st' -> exists news, AddsT rest (l_agenda st') news.
+Proof.
+  intros [e isack s' o nw kp k nwa Hev Hstep Ho Hnow Hsnd Hsink Hn2 Hslog Hn1 Hwd Hif HA' Hkp Hkeep Hpkt
+         | id r Hev Hfind Hk Hwd Hwa HA' | Hev Hk Hwd Hwa Hag | Hev Hk Hwa Hwd HA' | Hev Hk Hwd Hwa HA'
+         | id tm ct Hev Hp Hq Hk Hwd Hwa HA' | ackno pid tm ct Hev Hq Hk Hwd Hwa HA'
+         | id tm ct Hev Hp Hnow Hsnd Hpkt Hn1 Hslog Hsink Hn2 Hwd Hif]; eauto.
+  - exists []. rewrite Hag. constructor.
+  - destruct (droppedA lc (l_n2 st)); destruct Hif as [_ H]; eauto.
+Qed.
+
+Lemma fires_cons a l j t : In (j, t) (fires (a :: l)) <-> (ae_ev a = ATimerFire j /\ ae_time a = t) \/ In (j, t) (fires l).
+Proof.
+  unfold fires, fm. cbn [flat_map]. rewrite in_app_iff. unfold fire1 at 1. split.
+  - intros [H|H]; [left|right; exact H]. destruct (ae_ev a); cbn [In] in H; try contradiction. destruct H as [E|[]]. injection E as <- <-. auto.
+  - intros [[E <-]|H]; [left; rewrite E; left; reflexivity|right; exact H].
+Qed.
+
+(* the Timeout events of the other timers stay on the agenda *)
+Lemma fires_keep_step st a rest st' i :
+  l_agenda st = a :: rest -> Tr lc st a rest st' -> ae_ev a <> ATimerFire i -> fires_keep i st st'.
+Proof.
+  intros E HT Hne t Hin. destruct (Tr_adds _ _ _ _ HT) as (news & HA). rewrite E in Hin.
+  apply fires_cons in Hin as [[Ea _]|Hin]; [contradiction|].
+  apply (fm_AddsT_In fire1 _ _ _ _ HA). left. exact Hin.
+Qed.
+
+Lemma ctlD_rest a rest w :
+  WD (a :: rest) w ->
+  (is_initD (ae_ev a) = true \/ is_holdD (ae_ev a) = true \/ (is_putD (ae_ev a) = true /\ wd_waiting w = true)) ->
+  acount is_holdD rest = O.
+Proof.
+  intros [cD _] H. repeat rewrite acount_cons in cD. destruct H as [R|[R|[_ R]]]; rewrite R in cD; cbn [b2n] in cD; lia.
+Qed.
+
+Lemma ctlA_rest now a rest w :
+  WA lc now (a :: rest) w ->
+  (is_initA (ae_ev a) = true \/ is_holdA (ae_ev a) = true \/ (is_putA (ae_ev a) = true /\ wa_waiting w = true)) ->
+  acount is_holdA rest = O.
+Proof.
+  intros [cA _ _ _ _] H. repeat rewrite acount_cons in cA. destruct H as [R|[R|[_ R]]]; rewrite R in cA; cbn [b2n] in cA; lia.
+Qed.
+
+Lemma sender_news_nohold tau o n1 nw kp k s s' e n :
+  oeff lc tau n1 o = (nw, kp, k) -> In n (nw ++ extra_news tau s s' e) -> is_holdD (snd n) = false /\ is_holdA (snd n) = false.
+Proof.
+  intros Ho Hn. destruct (oeff_kinds lc tau o n1 nw kp k Ho) as [Hk _]. apply in_app_or in Hn as [Hn|Hn].
+  - rewrite Forall_forall in Hk. destruct (Hk n Hn) as [->|[(id & ->)|(id & r & ->)]]; split; reflexivity.
+  - apply extra_news_kind in Hn as [->| ->]; split; reflexivity.
+Qed.
+
+Lemma getD_news_nohold tau w n : In n (fst (getD_eff tau w)) -> is_holdA (snd n) = false.
+Proof. unfold getD_eff. destruct (wd_items w); cbn [fst]; [intros []|]. intros [<-|[]]. reflexivity. Qed.
+Lemma getA_news_nohold tau w n : In n (fst (getA_eff tau w)) -> is_holdD (snd n) = false.
+Proof. unfold getA_eff. destruct (wa_items w); cbn [fst]; [intros []|]. intros [<-|[]]. reflexivity. Qed.
+
+Definition consumed (st : lstate) (a : aentry) (x : item * Q) : Prop :=
+  (exists e, ev_sender lc st (ae_time a) (ae_ev a) e true) /\ In x (hA1 lc a).
+
+(* EVERY ITEM IN FLIGHT SURVIVES an agenda step that does not drop an ACK, with a deadline that is not
+   later -- except the ACK handed to the sender *)
+Lemma step_Pres st a rest st' :
+  0 < mss (lc_cfg lc) -> LInvB lc st None -> LInvW lc st -> l_agenda st = a :: rest ->
+  (l_now st <= ae_time a)%Q -> (forall b, In b (l_agenda st) -> (ae_time a <= ae_time b)%Q) ->
+  Tr lc st a rest st' -> (droppedA lc (l_n2 st) = false \/ l_n2 st' = l_n2 st) ->
+  Pres (last_ack (l_snd st)) (pipe lc st) (pipe lc st') (consumed st a).
+Proof.
+  intros Hm HB HW E Hn Hall HT Hnd. pose proof HW as [W0 Wp We WDs WAs]. rewrite E in We, WDs, WAs.
+  set (X := last_ack (l_snd st)).
+  assert (ToP : forall x x', In x' (pipe lc st') -> better x x' -> consumed st a x \/ exists x', In x' (pipe lc st') /\ Rx X (fst x) (fst x') /\ (snd x' <= snd x)%Q).
+  { intros x x' Hin [B1 B2]. right. exists x'. split; [exact Hin|]. split; [rewrite B1; apply Rx_refl|exact B2]. }
+  assert (InA : forall x', In x' (APl (l_agenda st') (l_wa st')) -> In x' (pipe lc st')) by (intros x' H; rewrite pipe_parts; apply in_or_app; left; exact H).
+  assert (InD : forall x', In x' (DPl (l_now st') (l_agenda st') (wd_items (l_wd st'))) -> In x' (pipe lc st')) by (intros x' H; rewrite pipe_parts; apply in_or_app; right; exact H).
+  assert (HleD : acount is_holdD (a :: rest) = O -> wd_items (l_wd st) <> [] -> (ae_time a <= l_now st)%Q).
+  { intros Hc Hne. apply (head_le_now_D st a rest HW E Hall); [rewrite E; exact Hc|exact Hne]. }
+  intros x Hx. rewrite pipe_parts, E in Hx.
+  destruct HT as [e isack s' o nw kp k nwa Hev Hstep Ho Hnow Hsnd Hsink Hn2 Hslog Hn1 Hwd Hif HA' Hkp Hkeep Hpkt
+                 | id r Hev Hfind Hk Hwd Hwa HA' | Hev Hk Hwd Hwa Hag | Hev Hk Hwa Hwd HA' | Hev Hk Hwd Hwa HA'
+                 | id tm ct Hev Hp Hq Hk Hwd Hwa HA' | ackno pid tm ct Hev Hq Hk Hwd Hwa HA'
+                 | id tm ct Hev Hp Hnow Hsnd Hpkt Hn1 Hslog Hsink Hn2 Hwd Hif].
+  - (* sender *)
+    destruct (ev_sender_roles _ _ _ _ _ _ Hev) as (R1 & R2 & R3 & R4 & R5 & R6).
+    assert (NH : forall n, In n ((nw ++ extra_news (ae_time a) (l_snd st) s' e) ++ nwa) -> is_holdD (snd n) = false).
+    { intros n Hin. apply in_app_or in Hin as [Hin|Hin]; [eapply sender_news_nohold; eauto|].
+      destruct isack; destruct Hif as [-> _]; [eapply getA_news_nohold; eauto|destruct Hin]. }
+    apply in_app_or in Hx as [Hx|Hx].
+    + destruct isack; destruct Hif as [-> Hwa].
+      * unfold APl in Hx. apply in_app_or in Hx as [Hx|Hx].
+        -- rewrite heldA_cons in Hx. apply in_app_or in Hx as [Hx|Hx]; [left; split; [eauto|exact Hx]|].
+           pose proof (ctlA_rest _ _ _ _ WAs (or_intror (or_introl R6))) as Hc. rewrite (heldA_nil_count _ Hc) in Hx. destruct Hx.
+        -- eapply ToP; [apply InA; rewrite Hwa; eapply AP_get; eauto|apply better_refl].
+      * eapply ToP; [apply InA; eapply (AP_same a rest _ _ (l_wa st) (l_wa st') []); eauto|apply better_refl].
+        -- intros n Hin. rewrite app_nil_r in Hin. eapply sender_news_nohold; eauto.
+        -- rewrite Hwa, app_nil_r. reflexivity.
+    + destruct (DP_same (l_now st) (ae_time a) a rest _ _ (wd_items (l_wd st)) kp x R1 HA' NH HleD Hx) as (x' & A & B).
+      eapply ToP; [apply InD; rewrite Hnow, Hwd; exact A|exact B].
+  - (* Timer Initialize *)
+    destruct Hk as [k1 k2 k3 k4 k5 k6 k7]. unfold popped in *; lproj.
+    apply in_app_or in Hx as [Hx|Hx].
+    + eapply ToP; [apply InA; eapply (AP_same a rest _ _ (l_wa st) (l_wa st') []); eauto|apply better_refl].
+      * rewrite Hev. reflexivity.
+      * intros n [<-|[]]. reflexivity.
+      * rewrite Hwa, app_nil_r. reflexivity.
+    + assert (Ra : is_holdD (ae_ev a) = false) by (rewrite Hev; reflexivity).
+      assert (NH : forall n, In n [(nq (ae_time a + r), ATimerFire id)] -> is_holdD (snd n) = false) by (intros n [<-|[]]; reflexivity).
+      destruct (DP_same (l_now st) (ae_time a) a rest _ _ (wd_items (l_wd st)) [] x Ra HA' NH HleD Hx) as (x' & A & B).
+      eapply ToP; [apply InD; rewrite k1, Hwd; rewrite app_nil_r in A; exact A|exact B].
+  - (* nothing *)
+    destruct Hk as [k1 k2 k3 k4 k5 k6 k7]. unfold popped in *; lproj.
+    assert (HA' : AddsT rest (l_agenda st') []) by (rewrite Hag; constructor).
+    assert (Ra : is_holdD (ae_ev a) = false /\ is_holdA (ae_ev a) = false).
+    { destruct (ae_ev a) as [| | | | |[]| | | |]; try contradiction; split; reflexivity. }
+    destruct Ra as [Ra1 Ra2].
+    apply in_app_or in Hx as [Hx|Hx].
+    + eapply ToP; [apply InA; eapply (AP_same a rest _ _ (l_wa st) (l_wa st') []); eauto|apply better_refl].
+      * intros n [].
+      * rewrite Hwa, app_nil_r. reflexivity.
+    + assert (NH : forall n, In n (@nil (Q * aev)) -> is_holdD (snd n) = false) by (intros n []).
+      destruct (DP_same (l_now st) (ae_time a) a rest _ _ (wd_items (l_wd st)) [] x Ra1 HA' NH HleD Hx) as (x' & A & B).
+      eapply ToP; [apply InD; rewrite k1, Hwd; rewrite app_nil_r in A; exact A|exact B].
+  - (* data wire get *)
+    destruct Hk as [k1 k2 k3 k4 k5 k6 k7]. unfold popped in *; lproj.
+    assert (Ra : is_holdD (ae_ev a) = false /\ is_holdA (ae_ev a) = false) by (destruct Hev as [->|[-> _]]; split; reflexivity).
+    destruct Ra as [Ra1 Ra2].
+    assert (Hc : acount is_holdD rest = O).
+    { apply (ctlD_rest a rest _ WDs). destruct Hev as [->|[-> Hw]]; [left; reflexivity|right; right; split; [reflexivity|exact Hw]]. }
+    apply in_app_or in Hx as [Hx|Hx].
+    + eapply ToP; [apply InA; eapply (AP_same a rest _ _ (l_wa st) (l_wa st') []); eauto|apply better_refl].
+      * intros n Hin. eapply getD_news_nohold; eauto.
+      * rewrite Hwa, app_nil_r. reflexivity.
+    + unfold DPl in Hx. apply in_app_or in Hx as [Hx|Hx].
+      * exfalso. unfold heldD_items in Hx. rewrite hD_nothold in Hx by exact Ra1.
+        rewrite (proj2 (hD_nil_count lc _) Hc) in Hx. destruct Hx.
+      * assert (Hc2 : acount is_holdD (a :: rest) = O) by (rewrite acount_cons, Ra1; cbn [b2n]; lia).
+        rewrite (base_nil lc _ _ Hc2) in Hx.
+        assert (Hne : wd_items (l_wd st) <> []) by (intros En; rewrite En in Hx; destruct Hx).
+        destruct (DP_get (ae_time a) (l_now st) rest _ [] (l_wd st) x Hc HA' ltac:(intros n []) (HleD Hc2 Hne) Hx) as (x' & A & B).
+        eapply ToP; [apply InD; rewrite k1, Hwd; exact A|exact B].
+  - (* ACK wire get *)
+    destruct Hk as [k1 k2 k3 k4 k5 k6 k7]. unfold popped in *; lproj.
+    assert (Ra : is_holdD (ae_ev a) = false /\ is_holdA (ae_ev a) = false) by (destruct Hev as [->|[-> _]]; split; reflexivity).
+    destruct Ra as [Ra1 Ra2].
+    assert (Hc : acount is_holdA rest = O).
+    { apply (ctlA_rest _ a rest _ WAs). destruct Hev as [->|[-> Hw]]; [left; reflexivity|right; right; split; [reflexivity|exact Hw]]. }
+    apply in_app_or in Hx as [Hx|Hx].
+    + unfold APl in Hx. rewrite heldA_nothold in Hx by exact Ra2. rewrite (heldA_nil_count _ Hc) in Hx. cbn [app] in Hx.
+      eapply ToP; [apply InA; rewrite Hwa; eapply (AP_get (ae_time a) rest _ []); eauto|apply better_refl].
+    + assert (NH : forall n, In n (fst (getA_eff (ae_time a) (l_wa st))) -> is_holdD (snd n) = false) by (intros n Hin; eapply getA_news_nohold; eauto).
+      destruct (DP_same (l_now st) (ae_time a) a rest _ _ (wd_items (l_wd st)) [] x Ra1 HA' NH HleD Hx) as (x' & A & B).
+      eapply ToP; [apply InD; rewrite k1, Hwd; rewrite app_nil_r in A; exact A|exact B].
+  - (* data wait *)
+    destruct Hk as [k1 k2 k3 k4 k5 k6 k7]. unfold popped in *; lproj.
+    assert (Hc : acount is_holdD rest = O) by (apply (ctlD_rest a rest _ WDs); right; left; rewrite Hev; reflexivity).
+    apply in_app_or in Hx as [Hx|Hx].
+    + eapply ToP; [apply InA; eapply (AP_same a rest _ _ (l_wa st) (l_wa st') []); eauto|apply better_refl].
+      * rewrite Hev. reflexivity.
+      * intros n [<-|[]]. reflexivity.
+      * rewrite Hwa, app_nil_r. reflexivity.
+    + assert (Ht : (nq (ae_time a + (d - (ae_time a - ct))) <= ae_time a + d)%Q).
+      { rewrite nq_eq. destruct (Wp id tm ct Hp) as [_ Hc']. lra. }
+      destruct (DP_wait (l_now st) (ae_time a) a rest _ id _ (wd_items (l_wd st)) x Hev eq_refl HA' Ht Hc Hx) as (x' & A & B).
+      eapply ToP; [apply InD; rewrite k1, Hwd; exact A|exact B].
+  - (* ACK wait *)
+    destruct Hk as [k1 k2 k3 k4 k5 k6 k7]. unfold popped in *; lproj.
+    apply in_app_or in Hx as [Hx|Hx].
+    + eapply ToP; [apply InA; rewrite Hwa; eapply AP_wait; eauto|apply better_refl].
+    + assert (Ra : is_holdD (ae_ev a) = false) by (rewrite Hev; reflexivity).
+      assert (NH : forall n, In n [(nq (ae_time a + (d - (ae_time a - ct))), AWireOutA ackno pid tm ct)] -> is_holdD (snd n) = false) by (intros n [<-|[]]; reflexivity).
+      destruct (DP_same (l_now st) (ae_time a) a rest _ _ (wd_items (l_wd st)) [] x Ra HA' NH HleD Hx) as (x' & A & B).
+      eapply ToP; [apply InD; rewrite k1, Hwd; rewrite app_nil_r in A; exact A|exact B].
+  - (* delivery at the sink *)
+    assert (Hdr : droppedA lc (l_n2 st) = false) by (destruct Hnd as [H|H]; [exact H|rewrite Hn2 in H; lia]).
+    rewrite Hdr in Hif. destruct Hif as [Hwa HA'].
+    assert (Ra : is_holdD (ae_ev a) = true /\ is_holdA (ae_ev a) = false) by (destruct Hev as [->|[-> _]]; split; reflexivity).
+    destruct Ra as [Ra1 Ra2].
+    assert (Hc : acount is_holdD rest = O) by (apply (ctlD_rest a rest _ WDs); right; left; exact Ra1).
+    assert (NHA : forall n, In n ((nq (ae_time a), AWirePutCb true) :: fst (getD_eff (ae_time a) (l_wd st))) -> is_holdA (snd n) = false).
+    { intros n [<-|Hin]; [reflexivity|eapply getD_news_nohold; eauto]. }
+    apply in_app_or in Hx as [Hx|Hx].
+    + eapply ToP; [apply InA; eapply (AP_same a rest _ _ (l_wa st) (l_wa st') _); eauto|apply better_refl].
+      rewrite Hwa. reflexivity.
+    + unfold DPl in Hx.
+      assert (Eh : exists fin, hD lc (a :: rest) = [(id, fin)] /\ (ae_time a <= fin)%Q).
+      { rewrite hD_cons, (proj2 (hD_nil_count lc _) Hc), app_nil_r. unfold hD1, hD1te.
+        destruct Hev as [->|[-> _]]; eexists; (split; [reflexivity|lra]). }
+      destruct Eh as (fin & Eh & Hfin).
+      unfold heldD_items, base in Hx. rewrite Eh in Hx. cbn [map fst snd] in Hx.
+      apply in_app_or in Hx as [[<-|[]]|Hx].
+      * (* the delivered copy becomes its ACK *)
+        right. exists (IA (nse (l_sink st')) id, (ae_time a + d)%Q). split; [|split].
+        -- apply InA. unfold APl. apply in_or_app. right. unfold qA_items. rewrite Hwa. cbn [wa_items]. rewrite map_app.
+           apply in_or_app. right. left. reflexivity.
+        -- cbn [fst]. split; [intros i Hi; exact Hi|]. cbn [isX]. intros Hi. apply Z.eqb_eq in Hi. apply Z.ltb_lt.
+           assert (Hseg : 0 <= id).
+           { destruct (lb_evd _ _ _ HB (ae_ev a) id) as [A _]; [right; exists a; split; [rewrite E; left; reflexivity|reflexivity]|destruct Hev as [->|[-> _]]; reflexivity|exact A]. }
+           destruct (sink_nse_after lc st None id Hm HB Hseg) as (_ & _ & M3). cbv zeta in M3. rewrite <- Hsink in M3.
+           pose proof (lb_la _ _ _ HB). subst id. fold X in M3. specialize (M3 ltac:(unfold X; lia)). unfold X in *. lia.
+        -- cbn [snd]. lra.
+      * destruct (DP_get (ae_time a) fin rest _ [(nq (ae_time a), AWirePutCb true)] (l_wd st) x Hc HA' ltac:(intros n [<-|[]]; reflexivity) Hfin Hx) as (x' & A & B).
+        eapply ToP; [apply InD; rewrite Hnow, Hwd; exact A|exact B].
+Qed.
+End Parts.
